@@ -251,6 +251,8 @@ def run_clone_cell(bita, root, idx, cell, arch_paths, server, viol, arch_bytes=N
             viol.add("in-place-success-with-wrong-output" if in_place else "success-with-wrong-output", detail)
             if got is not None and len(got) != len(src):
                 viol.add("output-length-differs-from-source-length", detail)
+    if cell["transport"] == "http" and kind == "words" and got == src and arch_bytes is not None:
+        judge_requests(cell, idx, kind, src, prior, seed_data, arch_bytes[cell["archive"]], server, viol, detail)
     return "cloned"
 
 
